@@ -308,6 +308,11 @@ func TestVerifC01(t *testing.T) {
 	emit := func(ps *plServer, q *plQuery, extra ...string) {
 		o := ps.run(q)
 		ok, msg := c01Monitor(ps.cfg, q, &o)
+		adOK, adMsg, adClasses := plADMonitor(ps.cfg, &o)
+		if ok && !adOK {
+			ok, msg = false, adMsg
+		}
+		extra = append(extra, adClasses...)
 		res := o.Result
 		var defs []vfDef
 		coq := plCaseCoqShared("CPipe", ps, q, &o, &defs)
